@@ -60,21 +60,21 @@ package val
 //@   ensures #distinct True != False
 
 //@ func Num
-//@   props C01 C04
+//@   props C01 C04 C15
 //@   uses types.init
 //@   nopanic
 //@   fresh
 //@   ensures isNum(result) && same(result.Num().V, n)
 
 //@ func Bool
-//@   props C01 C04
+//@   props C01 C04 C15
 //@   uses val.init
 //@   nopanic
 //@   pure
 //@   ensures isBool(result) && result.Bool().V == b
 
 //@ func Str
-//@   props C01 C04
+//@   props C01 C04 C15
 //@   uses types.init
 //@   nopanic
 //@   fresh
@@ -147,7 +147,7 @@ package val
 //@   ensures result == mapEq(x, y)
 
 //@ func Time
-//@   props C01 C04
+//@   props C01 C04 C15
 //@   uses types.init
 //@   nopanic
 //@   fresh
